@@ -649,6 +649,10 @@ def enumerate_injections(model):
                         for fl in ("rev", "flat"):
                             if tgt["data"] != fl:
                                 out.append(dict(base, kind="link-data", j=j, data=fl))
+                    # the linked array grows / shrinks: the tick count no longer matches the described data
+                    for newn in (tgt["shape"][0] + 1, tgt["shape"][0] - 1):
+                        if newn >= 1:
+                            out.append(dict(base, kind="link-resize", j=j, n=newn))
                 if k == "set" and not is_linked(d):
                     for cnt in (n + 1, n - 1):
                         if cnt >= 1:
@@ -765,6 +769,8 @@ def apply_injection(model, inj):
                     d["ticks"] = list(inj["ticks"])
             elif kind == "link-data":
                 find_array(b, d["link"])["data"] = inj["data"]
+            elif kind == "link-resize":
+                find_array(b, d["link"])["shape"] = [int(inj["n"])]
             elif kind == "labels":
                 if d["k"] != "set" or is_linked(d):
                     raise ValueError("labels target")
